@@ -727,9 +727,11 @@ func checkRootsAs(r *Report, m *spModel, sr *sigRoles, rule string) {
 			case "metadata":
 				r.OK(rule, cons, p.InstrPos(call), "IdP metadata key descriptors ("+shortFn(src)+")")
 				checkMetadataCerts(r, p, src, rule)
+				checkNoProcessState(r, p, src, rule)
 			case "fingerprint":
 				r.OK(rule, cons, p.InstrPos(call), "certificate matched against the configured fingerprint ("+shortFn(src)+")")
 				checkFingerprint(r, p, src, rule)
+				checkNoProcessState(r, p, src, rule)
 			case "parse":
 				// argument must be the pinned certificate from configuration
 				arg := call.Call.Args[0]
@@ -743,6 +745,7 @@ func checkRootsAs(r *Report, m *spModel, sr *sigRoles, rule string) {
 		}
 	}
 	for _, v := range sr.Validators {
+		checkNoProcessState(r, p, v, rule)
 		// the Roots field store: in the validator or in a helper it calls (bound 2)
 		region := []*ssa.Function{v}
 		seen := map[*ssa.Function]bool{v: true}
@@ -1348,4 +1351,92 @@ func elementSourceOfComponent(p *Prog, fc *FuncCtx, v ssa.Value, sr *sigRoles, d
 		}
 	}
 	return fc.AP(v), false
+}
+
+// moduleWrittenGlobals: package-level variables of the module that library code modifies after initialisation: a store
+// to the variable (or to memory reached through it), a map update or delete on it, or a call of a mutating method of a
+// synchronised container (sync.Map, sync.Pool, atomic.Value) on it. Application-set configuration variables (TimeNow,
+// Clock, MaxIssueDelay, RandReader) are written by no library function and are not in the set.
+func moduleWrittenGlobals(p *Prog) map[*ssa.Global]string {
+	out := map[*ssa.Global]string{}
+	mutating := map[string]bool{"Store": true, "LoadOrStore": true, "LoadAndDelete": true, "Delete": true, "Swap": true, "CompareAndSwap": true, "CompareAndDelete": true, "Put": true, "Clear": true}
+	globalOf := func(v ssa.Value) *ssa.Global {
+		for i := 0; i < 8; i++ {
+			switch x := v.(type) {
+			case *ssa.Global:
+				return x
+			case *ssa.FieldAddr:
+				v = x.X
+			case *ssa.IndexAddr:
+				v = x.X
+			case *ssa.UnOp:
+				v = x.X
+			default:
+				return nil
+			}
+		}
+		return nil
+	}
+	for _, fn := range p.modFns {
+		if !p.InLibrary(fn) || fn.Name() == "init" || strings.HasPrefix(fn.Name(), "init#") {
+			continue
+		}
+		for _, b := range fn.Blocks {
+			for _, in := range b.Instrs {
+				switch x := in.(type) {
+				case *ssa.Store:
+					if g := globalOf(x.Addr); g != nil && p.InModule(fn) && g.Pkg != nil && strings.HasPrefix(g.Pkg.Pkg.Path(), modPath) {
+						out[g] = p.InstrPos(in)
+					}
+				case *ssa.MapUpdate:
+					if g := globalOf(x.Map); g != nil && g.Pkg != nil && strings.HasPrefix(g.Pkg.Pkg.Path(), modPath) {
+						out[g] = p.InstrPos(in)
+					}
+				case *ssa.Call:
+					if bi, ok := x.Call.Value.(*ssa.Builtin); ok && bi.Name() == "delete" && len(x.Call.Args) == 2 {
+						if g := globalOf(x.Call.Args[0]); g != nil && g.Pkg != nil && strings.HasPrefix(g.Pkg.Pkg.Path(), modPath) {
+							out[g] = p.InstrPos(in)
+						}
+					}
+					if sc := x.Call.StaticCallee(); sc != nil && sc.Signature.Recv() != nil && mutating[sc.Name()] && len(x.Call.Args) > 0 {
+						rt := types.TypeString(sc.Signature.Recv().Type(), nil)
+						if strings.HasPrefix(rt, "*sync.") || strings.HasPrefix(rt, "*sync/atomic.") {
+							if g := globalOf(x.Call.Args[0]); g != nil && g.Pkg != nil && strings.HasPrefix(g.Pkg.Pkg.Path(), modPath) {
+								out[g] = p.InstrPos(in)
+							}
+						}
+					}
+				}
+			}
+		}
+	}
+	return out
+}
+
+// checkNoProcessState: the functions on the trust path (fn and the unexported helpers it calls) consult no package-level
+// variable that the library itself modifies at run time (a cache, a registry): the trusted roots are derived, on every
+// validation, from what the SP configuration holds at that moment.
+func checkNoProcessState(r *Report, p *Prog, fn *ssa.Function, rule string) {
+	written := moduleWrittenGlobals(p)
+	for _, f := range helperRegion(p, fn, 2) {
+		for _, b := range f.Blocks {
+			for _, in := range b.Instrs {
+				for _, op := range in.Operands(nil) {
+					if op == nil || *op == nil {
+						continue
+					}
+					g, ok := (*op).(*ssa.Global)
+					if !ok {
+						continue
+					}
+					if at, isW := written[g]; isW {
+						r.Bad(rule, fmt.Sprintf("%s: trusted roots do not depend on state the library keeps between calls", p.FnName(f)), p.InstrPos(in),
+							fmt.Sprintf("the trust decision consults the package-level variable %s, which the library modifies at run time (%s): a certificate that was valid for an earlier message stays trusted after the configuration it came from has changed", g.Name(), at))
+						return
+					}
+				}
+			}
+		}
+	}
+	r.OK(rule, fmt.Sprintf("%s: trusted roots do not depend on state the library keeps between calls", p.FnName(fn)), p.Pos(fn.Pos()), "no library-written package-level variable is read on the trust path")
 }
